@@ -89,7 +89,11 @@ void Encoder::putPacket(const Packet& packet)
         bytesLeft -= bytesToAdd;
 
         if (isSegmentedFlag == SegmentType::lastSegment)
-            addNewCMPFrame(packet);
+        {
+            // Close the frame: a last segment stays alone in its frame
+            cmpFrame.resize(std::max(cmpFrame.size() - bytesLeft, minBytesPerMessage), 0);
+            bytesLeft = 0;
+        }
     }
 
 }
@@ -139,7 +143,8 @@ bool Encoder::checkIfSegmented(const Packet& packet)
     bool isSegmented = (!cmpFrames.empty() && bytesLeft < sizeof(MessageHeader) + packet.getPayloadLength());
     if (isSegmented)
     {
-        addNewCMPFrame(packet);
+        if (bytesLeft != maxBytesPerMessage - sizeof(CmpHeader))
+            addNewCMPFrame(packet);
         isSegmented = (!cmpFrames.empty() && bytesLeft < sizeof(MessageHeader) + packet.getPayloadLength());
     }
     return isSegmented;
